@@ -44,6 +44,9 @@ func ModelValueTokens(cons m.ConsM, expr hclsyntax.Expression, funcs map[string]
 
 type valueModel struct {
 	funcs map[string]m.FuncM
+	// skip: the schema asks to leave literal collection constructors alone under this
+	// any-expression; how far down that reaches is not decided, so any constructor below is not
+	skip bool
 }
 
 func singleLine(r hcl.Range) bool { return r.Start.Line == r.End.Line && r.Start.Byte < r.End.Byte }
@@ -81,10 +84,7 @@ func (vm valueModel) cons(c m.ConsM, expr hclsyntax.Expression, depth int) (Valu
 	case "any":
 		if c.Skip {
 			// the schema asks to leave literal collection constructors alone here
-			switch expr.(type) {
-			case *hclsyntax.TupleConsExpr, *hclsyntax.ObjectConsExpr:
-				return out, false
-			}
+			vm.skip = true
 		}
 		return vm.typed(c.Ty.Cty(), expr, true, depth)
 	case "littype":
@@ -279,10 +279,79 @@ func (vm valueModel) typed(t cty.Type, expr hclsyntax.Expression, anyExpr bool, 
 		sub, ok := vm.typed(et, e, anyExpr, depth+1)
 		if ok {
 			out.add(sub)
+			return true
 		}
-		return ok
+		if anyExpr && e != nil && e.Range().Start.Byte < e.Range().End.Byte {
+			// under an any-expression every element / operand / argument / branch is interpreted on
+			// its own: one that is not decided leaves its own extent undecided, not its siblings
+			out.Ignore = append(out.Ignore, rg(e.Range()))
+			return true
+		}
+		return false
+	}
+	fits := func(result cty.Type) bool {
+		if t == cty.DynamicPseudoType || result == cty.DynamicPseudoType {
+			return true
+		}
+		_, err := convert.Convert(cty.UnknownVal(result), t)
+		return err == nil
+	}
+	if vm.skip {
+		switch expr.(type) {
+		case *hclsyntax.TupleConsExpr, *hclsyntax.ObjectConsExpr:
+			return out, false
+		}
 	}
 	switch e := expr.(type) {
+	case *hclsyntax.ParenthesesExpr:
+		if !anyExpr {
+			return out, false
+		}
+		return vm.typed(t, e.Expression, true, depth+1)
+	case *hclsyntax.BinaryOpExpr:
+		// an operation whose result fits the expected type: the operands are values of the operator's operand types
+		if !anyExpr || e.Op == nil || !fits(e.Op.Type) {
+			return out, false
+		}
+		ps := e.Op.Impl.Params()
+		if len(ps) != 2 || !elem(ps[0].Type, e.LHS) || !elem(ps[1].Type, e.RHS) {
+			return out, false
+		}
+		return out, true
+	case *hclsyntax.UnaryOpExpr:
+		if !anyExpr || e.Op == nil || !fits(e.Op.Type) {
+			return out, false
+		}
+		ps := e.Op.Impl.Params()
+		if len(ps) != 1 || !elem(ps[0].Type, e.Val) {
+			return out, false
+		}
+		return out, true
+	case *hclsyntax.ConditionalExpr:
+		if !anyExpr {
+			return out, false
+		}
+		if !elem(cty.Bool, e.Condition) || !elem(t, e.TrueResult) || !elem(t, e.FalseResult) {
+			return out, false
+		}
+		return out, true
+	case *hclsyntax.IndexExpr:
+		// coll[key] with a key that is no plain literal: what is marked inside the collection is
+		// not decided; the key is a value used as a string / number key
+		if !anyExpr {
+			return out, false
+		}
+		if _, lit := literalOf(e.Key); lit {
+			return out, false
+		}
+		if _, lit := e.Key.(*hclsyntax.LiteralValueExpr); lit {
+			return out, false
+		}
+		out.Ignore = append(out.Ignore, rg(e.Collection.Range()))
+		if !elem(cty.String, e.Key) {
+			return out, false
+		}
+		return out, true
 	case *hclsyntax.TupleConsExpr:
 		switch {
 		case t.IsListType() || t.IsSetType():
@@ -376,7 +445,8 @@ func (vm valueModel) typed(t cty.Type, expr hclsyntax.Expression, anyExpr bool, 
 			}
 			sub, ok := vm.typed(pt, a, true, depth+1)
 			if !ok {
-				return out, false
+				out.Ignore = append(out.Ignore, rg(a.Range()))
+				continue
 			}
 			out.add(sub)
 		}
